@@ -526,7 +526,11 @@ impl<'a> Mutator<'a> {
                     self.done = Some(("wrong-member-type", cell("member", "", inner.operand(), (prim("i32"), 0))));
                     return;
                 }
+                // a member initialiser is unified with the member type like an argument with its parameter:
+                // type changing edits inside it would be masked by that (dominating) diagnostic
+                self.in_arg += 1;
                 self.expr(inner);
+                self.in_arg -= 1;
             }
             _ => {}
         }
